@@ -12,7 +12,9 @@ Single-digit tampering, by field class (the protected fields of the property):
 * every numeric field is fixed-width decimal — `digit_flip_changes_number`: a changed digit is a changed number;
 * amounts — `tamper_amount_rejected`: a changed amount changes the batch total that the (unchanged) control is compared with;
 * batch control and header fields — `tamper_batch_control_rejected`, `tamper_batch_header_rejected`;
-* file control fields — `tamper_file_control_rejected`.
+* file control fields — `tamper_file_control_rejected`;
+* IAT batches — `tamper_iat_amount_rejected`, `tamper_iat_batch_control_rejected`, `tamper_iat_batch_header_rejected`
+  (the Reader validates an IAT batch with `IATBatch.verify` at its control record).
 
 All on the validation model of C03 (`batchValidate {}`, `fileValidate {}`), which is what the Reader runs for every
 batch at its control record and `File.Validate` runs for the file control.  The step from "column changed in the text"
@@ -122,6 +124,66 @@ theorem tamper_batch_header_rejected (b : VBatch) (h' : VHeader) (hacc : batchVa
   | false => rfl
   | true =>
     obtain ⟨_, _, _, _, _, g6, g7, _⟩ := C03.validate_sound_batch _ hv
+    simp only at g6 g7
+    rcases hne with h | h
+    · exact absurd (g6.trans h6.symm) h
+    · exact absurd (g7.trans h7.symm) h
+
+/-! ### the same for IAT batches (`iatBatchValidate`, what the Reader runs at an IAT batch's control record) -/
+
+theorem tamper_iat_amount_rejected (b : VBatch) (pre post : List VEntry) (e : VEntry) (a' : Int)
+    (hb : b.entries = pre ++ e :: post) (hacc : iatBatchValidate {} b = true) (hne : a' ≠ e.amount)
+    (hcls : iatCreditCodes.contains e.code = true ∨ iatDebitCodes.contains e.code = true) :
+    iatBatchValidate {} { b with entries := pre ++ { e with amount := a' } :: post } = false := by
+  obtain ⟨_, _, hd, hc, _⟩ := C03.validate_sound_iat_batch b hacc
+  cases hv : iatBatchValidate {} { b with entries := pre ++ { e with amount := a' } :: post } with
+  | false => rfl
+  | true =>
+    obtain ⟨_, _, hd', hc', _⟩ := C03.validate_sound_iat_batch _ hv
+    simp only at hd' hc'
+    rw [hb] at hd hc
+    unfold iatDebitTotal at hd hd'
+    unfold iatCreditTotal at hc hc'
+    rcases hcls with h | h
+    · have := sumBy_set_ne (fun x : VEntry => if iatCreditCodes.contains x.code then x.amount else 0) pre post
+        { e with amount := a' } e (by
+          have hm : e.code ∈ iatCreditCodes := by simpa using h
+          simp only [List.contains_eq_mem, hm, decide_true, if_true]; exact hne)
+      exact absurd (hc'.trans hc.symm) this
+    · have := sumBy_set_ne (fun x : VEntry => if iatDebitCodes.contains x.code then x.amount else 0) pre post
+        { e with amount := a' } e (by
+          have hm : e.code ∈ iatDebitCodes := by simpa using h
+          simp only [List.contains_eq_mem, hm, decide_true, if_true]; exact hne)
+      exact absurd (hd'.trans hd.symm) this
+
+theorem tamper_iat_batch_control_rejected (b : VBatch) (c' : VControl) (hacc : iatBatchValidate {} b = true)
+    (hne : c'.serviceClass ≠ b.control.serviceClass ∨ c'.entryAddendaCount ≠ b.control.entryAddendaCount ∨
+      c'.entryHash ≠ b.control.entryHash ∨ c'.totalDebit ≠ b.control.totalDebit ∨ c'.totalCredit ≠ b.control.totalCredit ∨
+      c'.odfi ≠ b.control.odfi ∨ c'.batchNumber ≠ b.control.batchNumber) :
+    iatBatchValidate {} { b with control := c' } = false := by
+  obtain ⟨h1, h2, h3, h4, h5, h6, h7, _⟩ := C03.validate_sound_iat_batch b hacc
+  cases hv : iatBatchValidate {} { b with control := c' } with
+  | false => rfl
+  | true =>
+    obtain ⟨g1, g2, g3, g4, g5, g6, g7, _⟩ := C03.validate_sound_iat_batch _ hv
+    simp only at g1 g2 g3 g4 g5 g6 g7
+    rcases hne with h | h | h | h | h | h | h
+    · exact absurd (g5.symm.trans h5) h
+    · exact absurd (g1.symm.trans h1) h
+    · exact absurd (g2.symm.trans h2) h
+    · exact absurd (g3.symm.trans h3) h
+    · exact absurd (g4.symm.trans h4) h
+    · exact absurd (g6.symm.trans h6) h
+    · exact absurd (g7.symm.trans h7) h
+
+theorem tamper_iat_batch_header_rejected (b : VBatch) (h' : VHeader) (hacc : iatBatchValidate {} b = true)
+    (hne : h'.odfi ≠ b.header.odfi ∨ h'.batchNumber ≠ b.header.batchNumber) :
+    iatBatchValidate {} { b with header := h' } = false := by
+  obtain ⟨_, _, _, _, _, h6, h7, _⟩ := C03.validate_sound_iat_batch b hacc
+  cases hv : iatBatchValidate {} { b with header := h' } with
+  | false => rfl
+  | true =>
+    obtain ⟨_, _, _, _, _, g6, g7, _⟩ := C03.validate_sound_iat_batch _ hv
     simp only at g6 g7
     rcases hne with h | h
     · exact absurd (g6.trans h6.symm) h
